@@ -124,6 +124,20 @@ class SRes:
         self.lin, self.m = lin.split(m)[1], m
 
 
+class XorTop:
+    """value == u ^ 2**(m-1) for u == lin mod 2**m in [0, 2**m - 1]  (the sign bit of an m-bit field flipped)"""
+
+    def __init__(self, lin, m):
+        self.lin, self.m = lin.split(m)[1], m
+
+
+class XorAbove:
+    """value == base + bit, for a base known to lie in [0, bit): base ^ bit with the bit above the base's width"""
+
+    def __init__(self, base, bit):
+        self.base, self.bit = base, bit
+
+
 def mask_low(x, m):
     """x & (2**m - 1)"""
     if isinstance(x, Lin):
@@ -180,6 +194,14 @@ def shift_right(x, k):
         hi, rest = x.split(k)
         lo, h = rest.range()
         if lo is None or lo < 0 or h > (1 << k) - 1:
+            # rounding shift  (v + 2**(k-1)) >> k : the low part is  B + 2**(k-1)  with B the low k bits; it carries exactly when
+            # bit k-1 of B is set
+            half = 1 << (k - 1) if k >= 1 else None
+            if half is not None and rest.const == half and all(c > 0 for c in rest.coefs.values()) and SH not in rest.coefs:
+                tops = [a for a, c in rest.coefs.items() if c == half]
+                others = sum(c for a, c in rest.coefs.items() if c != half)
+                if len(tops) == 1 and others <= half - 1 and all(c < half for a, c in rest.coefs.items() if a != tops[0]):
+                    return hi.div_exact(k) + Lin({tops[0]: 1}, 0)
             raise Unsupported('>> {} of a form whose low part may carry: {}'.format(k, rest))
         return hi.div_exact(k)
     if isinstance(x, ModU):
@@ -400,6 +422,24 @@ class Interp:
             a = self.ev(node.left, env, fname, depth)
             b = self.ev(node.right, env, fname, depth)
             return self.binop(type(node.op), a, b, fname, node)
+        if isinstance(node, ast.IfExp):
+            # a if t else b  with t a constant or a single-bit test: the two arms re-joined linearly on that bit
+            cond = self.ev(node.test, env, fname, depth)
+            if isinstance(cond, Lin) and cond.is_const():
+                cond = cond.const
+            if isinstance(cond, int):
+                return self.ev(node.body if cond else node.orelse, env, fname, depth)
+            if not (isinstance(cond, Lin) and cond.const == 0 and len(cond.coefs) == 1):
+                raise Unsupported('{}: condition of `{}` is not a single-bit test'.format(fname, unparse(node)))
+            (atom, coef), = cond.coefs.items()
+            if atom == SH or coef == 0:
+                raise Unsupported('{}: condition on the unbounded part'.format(fname))
+            outs = []
+            for val, arm in ((1, node.body), (0, node.orelse)):
+                e2 = {k: (v.subst(atom, val) if isinstance(v, Lin) else v) for k, v in env.items()}
+                r = self.ev(arm, e2, fname, depth)
+                outs.append(Lin({}, r) if isinstance(r, int) else r)
+            return join_on_bit(atom, outs[0], outs[1], fname)
         if isinstance(node, ast.Call) and isinstance(node.func, ast.Name) and node.func.id in self.facts.funcs:
             if depth > 4:
                 raise Unsupported('inlining depth')
@@ -425,6 +465,25 @@ class Interp:
                 return fold(ast.BinOp(left=ast.Constant(value=a), op=op(), right=ast.Constant(value=b)))
             except NotConstant:
                 return self._unsup(fname, node)
+        if op is ast.BitXor:
+            if isinstance(a, int):
+                a, b = b, a
+            if isinstance(b, int) and b > 0 and b & (b - 1) == 0:
+                m = b.bit_length()
+                if isinstance(a, ModU) and a.m == m:
+                    return XorTop(a.lin, m)
+                if isinstance(a, ModU) and a.m < m:
+                    return XorAbove(a, b)
+                if isinstance(a, Lin):
+                    lo, hi = a.range()
+                    if lo is not None and lo >= 0 and hi <= (1 << m) - 1:
+                        return XorTop(a, m)
+            return self._unsup(fname, node)
+        if op is ast.Sub and isinstance(a, XorAbove) and isinstance(b, int) and b == a.bit:
+            return a.base
+        if op is ast.Sub and isinstance(a, XorTop) and isinstance(b, int) and b == 1 << (a.m - 1):
+            # ((u ^ s) - s) for u in [0, 2s) is u when u < s and u - 2s otherwise: the signed residue
+            return SRes(a.lin, a.m)
         if op in (ast.Add, ast.Sub):
             if isinstance(a, ModU) and isinstance(b, BitOfMod) and op is ast.Sub and a.m == b.m and \
                     (a.lin - b.lin).congruent_zero(a.m):
